@@ -240,7 +240,17 @@ PROPS = {
   "min_theorems": 28,
   "fingerprints": [],
   "engines": [{"name": "lockup", "kind": "app", "n": {"quick": 4000, "thorough": 40000}, "shards": {"quick": 4, "thorough": 16}, "env": NO_EXPORT_IMPORT}],
-  "rule": "histories of 25-115 transactions: 3 owners (+ a stranger), 3 denominations (+ 1-2 CL share denominations cl/pool/<id> in a third of the histories), "
+  "rule": "histories of 25-115 transactions: 3 owners (+ a stranger), 3 denominations (+ 1-2 CL share denominations cl/pool/<id> in a third of the histories; "
+          "+ in 55% of the histories, class +names, 2-5 real HELD denominations whose names are related to every string lockup or its key layout treats specially: "
+          "containing / ending with / a strict prefix of / an extension of / a case variant of the CL share prefix cl/pool (xcl/pool/1, ibc/cl/pool/1, gamm/cl/pool/1, "
+          "uosmo/cl/pool, cl/poo, Cl/pool/1, the token-factory denominations factory/<owner A>/cl/pool/1 and factory/<owner A>/xcl/pool created and minted through "
+          "the token-factory msg server; cl/pool, cl/pool/, cl/poolx, cl/pool/1x, cl/pool/999 = held coins that carry the prefix and are burned at withdrawal), of LP "
+          "share names (gamm/pool/1 with gamm/pool/10, gamm/pool/1/x, gamm/pool/, xgamm/pool/1), of the synthetic-lock suffixes (real coins bar/superbonding/v1, "
+          "foo/superunbonding/v1, uosmo/superbonding, bar/superbond, bar/super, foo/superbondingx/v1, xsuperbonding/v1) and of the base names (uosm, uosmox, uosmo/x, Uosmo, "
+          "fooo, foo/, bar/x, barx); two transactions in five of such a history carry a related name, it may be the many-durations focus; every oracle runs for them; "
+          "on discarded branches keeper CreateLock locks of 2-4 coins mixing the classes go through add / extend / partial begin-unlock keeping every coin on both sides / "
+          "begin-unlock / 1ns-early attempt / UnlockMaturedLock, WithdrawMaturedLocks or keeper ForceUnlock: listed exactly once under each of their denominations, every "
+          "coin back with the owner unless its name STARTS with the CL prefix (then burned, supply down by exactly that), accumulations restored), "
           "history class few-durations (5 durations, two 1ns apart; many locks share a duration key) or many-durations (a third of the histories: 11-25 pairwise "
           "distinct durations, more than the accumulation tree's fan-out, most locks in one focus denomination, one lock per duration first in ascending / "
           "descending / shuffled order, then whole (denomination, duration) buckets drained: begin-unlock in full or in parts that sum to the total, time advance "
@@ -251,7 +261,9 @@ PROPS = {
           "(whitelisted or not, full/partial), CL share locks created by the CL keeper (CreateFullRangePositionLocked / ...Unlocking -> mint + CreateLockNoSend) and "
           "then begun, split, extended, force-unlocked, withdrawn (burned) like any lock, malformed messages; every call in a cache context written on success "
           "only; an evaluation is one op line (transaction or query observation); VERIF_OPS counts transactions; after EVERY transaction the oracle recomputes "
-          "from its own shadow lock list: lock records, module balance, per-owner conservation (CL shares: supply = locked, no account holds any), the "
+          "from its own shadow lock list: lock records, module balance, per-owner conservation (CL pool shares: supply = locked, no account holds any; held coins: balance + "
+          "locked = funded - withdrawn coins whose name starts with the CL prefix, bank supply = supply at funding - the same; a release that gives the owner less than the "
+          "released locks hold is `release:coins-not-returned-to-owner:<name class>`), GetLocksDenom of every denomination as an id multiset, the "
           "accumulation of EVERY denomination at every duration any lock of the history ever had, each +-1ns, midpoints between neighbours, 0, -1, 2*max, MaxInt64 "
           "(each query under catch: a panic is a failing input), the coin-sum queries (module locked, account locked/unlocking/unlockable), the whole reference "
           "index decoded from the KV store, and 15 keeper list queries for every owner x denom with sampled durations/times of the closure; 60% of the histories end "
@@ -267,7 +279,10 @@ PROPS = {
                   "and AddTokensToLockByID with a foreign denomination break index exactness (witness theorems, not reachable through messages)",
                   "per-owner conservation (balance + locked = funded) is stated for denominations without the CL share prefix; for CL share denominations the statement is "
                   "`cl_shares_never_paid_out` (no account balance ever grows) together with module balance = sum of live locks",
-                  "denominations none of which is a proper prefix of another (the *BeforeTimeDenom/ShorterDuration range iterators would include longer denominations; unused by any query)"],
+                  "the model's by-denomination queries are exact filters; the real *BeforeTimeDenom/ShorterDuration range iterators and the plain prefix iterators LockIteratorDenom / "
+                  "AccountLockIteratorDenom would include denominations that extend the requested one and are used by no keeper query (the +names histories hold prefix-related "
+                  "denominations and compare the id sets of every query in use); the accumulation-store key ranges of prefix-related denominations overlap (finding F55: rebuilds, "
+                  "sum-tree root lookup) - the model keeps one map per denomination"],
   "explanation": "invariant (module balance = sum of live locks; accumulation(d) = sum over ALL live locks, unlocking or not, with duration >= d; index entries = "
                  "exactly addLockRefs' keys of every live lock) proved inductive over every operation (incl. CL share locks: minted in, burned out) and hence for every "
                  "history; 13 keeper queries proved exact; per-owner conservation; balance can rise only by the owner's own matured locks (unmatured locked amount never "
